@@ -57,6 +57,7 @@ Inductive op :=
 | OCopyDir (p q : pathspec)
 | OMoveDir (p q : pathspec)
 | OWalkDir (p : pathspec)
+| OWalkRm (p : pathspec) (k : nat) (q : pathspec)   (* walk p; after k items remove q; drain *)
 | OProbe (p : pathspec)             (* every observer on one path (C05) *)
 | OSnap (k : nat)                   (* full snapshot of instance k through its public API *)
 | OTree (k : nat)                   (* the same without opening any file (metadata and listings only) *)
@@ -230,6 +231,26 @@ Section Run.
     end.
   Definition handle_of (rs : rstate) (r : nat) : option hid := lookup_reg (rs_regs rs) r.
 
+  (** [k] calls of next() on a walk (fewer if it ends), newest item first *)
+  Fixpoint walk_take (v : vfs) (k : nat) (w : walker) (acc : list (res path)) : bprog (list (res path) * walker) :=
+    match k with
+    | O => Ret (acc, w)
+    | S k' =>
+        let* iw := walk_next v w in
+        match fst iw with
+        | None => Ret (acc, snd iw)
+        | Some it => walk_take v k' (snd iw) (it :: acc)
+        end
+    end.
+
+  (** [if q.remove_file().is_err() { let _ = q.remove_dir_all(); }] *)
+  Definition remove_any (v : vfs) (q : path) : bprog (res unit) :=
+    let* r := vp_remove_file v q in
+    match r with
+    | Ok _ => Ret (Ok tt)
+    | _ => vp_remove_dir_all v fuel q
+    end.
+
   (** the program of an op that does not involve the register file *)
   Definition op_prog (o : op) : bprog outcome :=
     match o with
@@ -260,6 +281,17 @@ Section Run.
           let* r := vp_walk_dir v p in
           match r with
           | Ok w => lift VItems (walk_collect v fuel w [])
+          | Err e => Ret (Err e)
+          | Panic => Ret Panic
+          end)
+    | OWalkRm ps k qs =>
+        on_paths ps qs (fun v p v' q =>
+          let* r := vp_walk_dir v p in
+          match r with
+          | Ok w =>
+              let* aw := walk_take v k w [] in
+              let* _ := remove_any v' q in
+              lift VItems (walk_collect v fuel (snd aw) (fst aw))
           | Err e => Ret (Err e)
           | Panic => Ret Panic
           end)
@@ -335,6 +367,19 @@ Section Run.
     | None => run bhandler m s          (* unreachable: Proofs/AsyncProofs.v drive_is_run *)
     end.
 
+  (** [k] times [stream.next().await]: (store, items newest first, rest of the oracle, stream state) *)
+  Fixpoint atake (v : vfs) (k : nat) (w : awalker) (o : list bool) (s : store) (acc : list (res path))
+      : store * list (res path) * list bool * awalker :=
+    match k with
+    | O => (s, acc, o, w)
+    | S k' =>
+        match anext bhandler v (S (length o)) w o s with
+        | Some (s1, o1, Some it, w1) => atake v k' w1 o1 s1 (it :: acc)
+        | Some (s1, o1, None, w1) => (s1, acc, o1, w1)
+        | None => (s, acc, o, w)
+        end
+    end.
+
   Definition open_op_async (idx : nat) (rs : rstate) (ps : pathspec)
       (f : vfs -> path -> bprog (res hid)) : rstate * outcome :=
     match locate ps with
@@ -367,6 +412,23 @@ Section Run.
             end
         | Err e => (rs, Err e)
         | Panic => (rs, Panic)
+        end
+    | OWalkRm ps k qs =>
+        match locate ps, locate qs with
+        | Ok (v, s), Ok (v', s') =>
+            let '(st, r) := exec_async (orc idx) (vp_walk_dir v (prs s)) (rs_store rs) in
+            match r with
+            | Ok w =>
+                let t := atake v k (aw_start (w_inner w)) (orc (S idx)) st [] in
+                let '(st2, _) := exec_async (snd (fst t)) (remove_any v' (prs s')) (fst (fst (fst t))) in
+                let '(st3, items) := acollect bhandler v fuel (snd t) (snd (fst t)) st2 (snd (fst (fst t))) in
+                (mkRS st3 (rs_regs rs), res_map VItems items)
+            | Err e => (mkRS st (rs_regs rs), Err e)
+            | Panic => (mkRS st (rs_regs rs), Panic)
+            end
+        | Err e, _ => (rs, Err e)
+        | _, Err e => (rs, Err e)
+        | _, _ => (rs, Panic)
         end
     | OHRead _ _ | OHSeek _ _ | OHWrite _ _ | OHFlush _ | OHDrop _ | OHReadToEnd _
     | OSetFault _ _ | ONop | OClearLog => run_op idx o rs
